@@ -1252,3 +1252,18 @@ m('B1-walk-keywords-listed-in-the-other-order', 'C05', 'B1', '_C.PyTreeSpec.walk
 m('I4-entries-bound-admits-one-past-the-end', 'C16', 'I4', 'PyTreeSpec::FlattenIntoWithPathImpl/TupleGetItem[counter]', 'src/treespec/flatten.cpp',
   """                        if (num_children >= node.arity) [[unlikely]] {""",
   """                        if (num_children > node.arity) [[unlikely]] {""")
+m('A1-namespace-member-exempt-from-constness', 'C14', 'A1', 'PyTreeSpec/no-mutable-members', 'include/optree/treespec.h',
+  """    std::string m_namespace{};""",
+  """    mutable std::string m_namespace{};""")
+m('N2-accessors-skip-leafless-subtrees', 'C04', 'N2', 'AccessorsImpl/returns-after-the-children', 'src/treespec/treespec.cpp',
+  """    const Node& root = m_traversal.at(pos);
+    EXPECT_GE(pos + 1, root.num_nodes, "PyTreeSpec::TypedPaths() walked off start of array.");
+
+    ssize_t cur = pos - 1;""",
+  """    const Node& root = m_traversal.at(pos);
+    EXPECT_GE(pos + 1, root.num_nodes, "PyTreeSpec::TypedPaths() walked off start of array.");
+
+    ssize_t cur = pos - 1;
+    if (root.num_leaves == 0) [[unlikely]] {
+        return pos - cur;
+    }""")
